@@ -402,15 +402,19 @@ def main(argv=None):
             new.append((sig, ent))
     for kid, kh in sorted(known_hits.items()):
         print("KNOWN-FINDING: property=%s %s: %s (seen in %d runs)" % (prop.id, kid, kh["what"], kh["count"]))
+    unrepro = 0
     for n, (sig, ent) in enumerate(new):
         nviol += 1
         path, ok = report_violation(prop, sig, ent, agg["workdir"], do_min=(n < 4))
         print("violation signature: %s (%d runs) %s" % (sig, ent["count"], ent["message"][:300]))
-        if path is not None:
+        if path is not None and ok:
             print("VIOLATION property=%s replay=%s" % (prop.id, path))
-            if not ok:
-                print("  note: fresh-interpreter replay of %s did not validate" % path)
-        rc = 1
+            rc = 1
+        else:
+            # a violation that does not replay in a fresh interpreter is a defect of the harness (or the tree
+            # changed under the run), not evidence against loky: reported apart, exit status 2
+            print("HARNESS-ERROR unreproducible violation %s: fresh-interpreter replay of %s did not validate" % (sig, path))
+            unrepro += 1
     nerr = len(agg["harness"])
     for h in agg["harness"][:5]:
         print("HARNESS-ERROR run %s seed %s: %s" % (h["i"], h["seed"], h["error"][:300]))
@@ -426,7 +430,7 @@ def main(argv=None):
             os.rmdir(os.path.join(VERIF, ".work"))
         except OSError:
             pass
-    if rc == 0 and (agg["det_mismatch"] or nerr > max(2, agg["evaluations"] // 100)):
+    if rc == 0 and (agg["det_mismatch"] or unrepro or nerr > max(2, agg["evaluations"] // 100)):
         rc = 2
     if rc == 0 and agg["evaluations"] == 0:
         rc = 2
